@@ -47,7 +47,8 @@ class TvmBitarray(bitarray):
         super().append(value)
 
     def frombytes(self, a: BytesLike) -> None:
-        self.check_overflow(len(a) * 8)
+        # capacity is counted in bytes: len() of an array or of a cast memoryview counts items, which may be wider than a byte
+        self.check_overflow(memoryview(a).nbytes * 8)
         super().frombytes(a)
 
     def copy(self) -> "TvmBitarray":
